@@ -398,8 +398,9 @@ def cl_angular_purity(a, b, rad, k, xs, order):
             if not ok:
                 return ok, d
     # outer products with radial coefficients / ranges, then the polynomial class on the same B
-    M = np.asarray(rad0 * B)
-    if not (np.array_equal(M, np.outer(rad0, b0)) and np.array_equal(np.asarray(B * rad0), np.outer(rad0, b0))):
+    radl = rad0.tolist()
+    M = np.asarray(radl * B)
+    if not (np.array_equal(M, np.outer(rad0, b0)) and np.array_equal(np.asarray(B * radl), np.outer(rad0, b0))):
         return False, 'radial * B is not the outer product with the original coefficients'
     ok, d = intact('radial * B')
     if not ok:
@@ -423,7 +424,7 @@ def cl_angular_purity(a, b, rad, k, xs, order):
     if not ok:
         return ok, d
     r = np.array([0.0, 0.4, 0.9, 1.3, 1.8, 2.2, 2.9]); cs = np.array([0.0, 0.3, -0.8, 1.0, 0.5, -0.2, 0.9])
-    P = SPolynomial(r, cs, 0.5, 2.5, rad0 * B)
+    P = SPolynomial(r, cs, 0.5, 2.5, radl * B)
     func, ab, fs, as_ = spoly_reference(r, cs, 0.5, 2.5, np.outer(rad0, b0), 0.0, 1.0)
     ok, d = _cmp('SPolynomial(radial * B).func', P.func, func, fs, RTOL_FUNC * 100)
     if not ok:
@@ -432,6 +433,20 @@ def cl_angular_purity(a, b, rad, k, xs, order):
     if not ok:
         return ok, d
     return intact('SPolynomial(radial * B)')
+
+
+def cl_angular_outer(a, rad, kind):
+    """outer product of an angular dependence with radial coefficients given as any list-like object"""
+    from abel.tools.polynomial import Angular
+    A = Angular(a)
+    radv = {'list': list(rad), 'tuple': tuple(rad), 'ndarray': np.asarray(rad, float),
+            'int-ndarray': np.asarray(np.round(rad), int)}[kind]
+    ref = np.outer(np.ravel(np.asarray(radv, float)), np.asarray(a, float))
+    for nm, f in (('radial * Angular', lambda: radv * A), ('Angular * radial', lambda: A * radv)):
+        M = f()
+        if not (isinstance(M, np.ndarray) and M.shape == ref.shape and np.array_equal(M, ref)):
+            return False, '%s with %s radial coefficients is not the outer product' % (nm, kind)
+    return True, ''
 
 
 def cl_scalar_copy(kind, args, a, op='all'):
@@ -606,7 +621,7 @@ def cl_approx_gaussian(tol):
 
 CLAUSES = dict(polynomial=cl_polynomial, piecewise=cl_piecewise, spolynomial=cl_spolynomial,
                piecewise_s=cl_piecewise_s, angular=cl_angular, scalar_copy=cl_scalar_copy,
-               bspline=cl_bspline, approx_gaussian=cl_approx_gaussian, angular_purity=cl_angular_purity)
+               bspline=cl_bspline, approx_gaussian=cl_approx_gaussian, angular_purity=cl_angular_purity, angular_outer=cl_angular_outer)
 
 
 def run_clause(name, args):
